@@ -11,6 +11,8 @@ for p in props:
     if pid in NOT_APPLICABLE:
         na.append({"property_id": pid, "reason": NOT_APPLICABLE[pid]}); continue
     try:
+        if pid not in open(os.path.join(here, "READY")).read().split():
+            raise ModuleNotFoundError(name=pid.lower())
         mod = importlib.import_module(pid.lower())
     except ModuleNotFoundError as e:
         if e.name != pid.lower(): raise
